@@ -256,6 +256,20 @@ def check_chain(case, ctx):
     eb, nb_ = (np.array(v) for v in gen.cloud_xy(case["cloud_b"]))
     db = pack([np.array(d) for d in case["data_b"]])
     fresh = build.make_estimator(spec)
+    if has_kind(spec, ("linear",)):
+        # the same precondition as for the first data set: known finding D9 (SciPy returns NaN at some hull-vertex data points) would put NaN residuals into the next step
+        from scipy.interpolate import LinearNDInterpolator
+
+        pts_b = np.column_stack([eb, nb_])
+        try:
+            nan_b = np.isnan(LinearNDInterpolator(pts_b, np.zeros(pts_b.shape[0]))(pts_b)).any()
+        except Exception:  # noqa: BLE001 - Qhull refuses the second cloud: handled below
+            nan_b = False
+        if nan_b:
+            kinds = [s["kind"] for s in case["steps"]]
+            ctx.label("steps%d" % len(kinds), "refit_skipped_known_finding_D9")
+            ctx.nt(True)
+            return
     try:
         quiet(chain.fit, (eb, nb_), db)
         quiet(fresh.fit, (eb, nb_), db)
